@@ -327,6 +327,370 @@ theorem gen_clock_write_atomic :
     GitBugModel.Gen.WritePaths.clockWrite.contains "Rename" = true := by
   decide
 
+/-! ## several entities in one write path (MergeAll, pull): each entity old or new -/
+
+
+/-- what a reader sees under one ref name: nothing when the ref does not exist -/
+def refView (σ : RState) (n : String) : Option (Option (List OpTok)) :=
+  (σ.refs.find? (fun r => r.1 == n)).map (fun r => viewAt σ.store r.2)
+
+/-- the hash the last `setRef n` of the list sets -/
+def lastSet (ms : List Mut) (n : String) : Option String :=
+  ms.foldl (fun acc m => match m with | .setRef n' h => if n' == n then some h else acc | _ => acc) none
+
+theorem find_setAssoc_self {α} (l : List (String × α)) (k : String) (v : α) :
+    (setAssoc l k v).find? (fun x => x.1 == k) = some (k, v) := by
+  unfold setAssoc
+  by_cases ha : l.any (fun x => x.1 == k) = true
+  · simp only [ha, if_true]
+    induction l with
+    | nil => simp at ha
+    | cons x t ih =>
+      simp only [List.map_cons, List.find?_cons]
+      by_cases hx : (x.1 == k) = true
+      · simp [hx]
+      · simp only [hx, Bool.false_eq_true, if_false]
+        simp only [List.any_cons, hx, Bool.false_or] at ha
+        exact ih ha
+  · simp only [ha, Bool.false_eq_true, if_false]
+    rw [List.find?_append]
+    have : l.find? (fun x => x.1 == k) = none := by
+      rw [List.find?_eq_none]
+      intro x hx hxn
+      exact ha (List.any_eq_true.mpr ⟨x, hx, hxn⟩)
+    simp [this]
+
+theorem find_map_other' {α} (l : List (String × α)) (k k' : String) (v : α) (hne : k ≠ k') :
+    (l.map (fun x => if (x.1 == k) = true then (k, v) else x)).find? (fun x => x.1 == k') = l.find? (fun x => x.1 == k') := by
+  have hk : (k == k') = false := by simpa using hne
+  induction l with
+  | nil => rfl
+  | cons x t ih =>
+    simp only [List.map_cons, List.find?_cons]
+    by_cases hx : (x.1 == k) = true
+    · have hx' : x.1 = k := by simpa using hx
+      have h2 : (x.1 == k') = false := by rw [hx']; exact hk
+      simp only [hx, if_true, hk, h2]
+      exact ih
+    · simp only [hx, Bool.false_eq_true, if_false]
+      by_cases hx2 : (x.1 == k') = true
+      · simp [hx2]
+      · simp only [hx2, Bool.false_eq_true, if_false]
+        exact ih
+
+theorem find_setAssoc_other {α} (l : List (String × α)) (k k' : String) (v : α) (hne : k ≠ k') :
+    (setAssoc l k v).find? (fun x => x.1 == k') = l.find? (fun x => x.1 == k') := by
+  unfold setAssoc
+  have hk : (k == k') = false := by simpa using hne
+  by_cases ha : l.any (fun x => x.1 == k) = true
+  · simp only [ha, if_true]
+    exact find_map_other' l k k' v hne
+  · simp only [ha, Bool.false_eq_true, if_false]
+    rw [List.find?_append]
+    cases hf : l.find? (fun x => x.1 == k') with
+    | some w => rfl
+    | none => simp [List.find?_cons, hk]
+
+/-- the ref table after a run: the last `setRef` of the name, or what was there before -/
+theorem refs_run (ms : List Mut) : ∀ (σ : RState) (n : String),
+    (run σ ms).refs.find? (fun r => r.1 == n) =
+      match lastSet ms n with
+      | some h => some (n, h)
+      | none => σ.refs.find? (fun r => r.1 == n) := by
+  -- generalise the accumulator of lastSet
+  have gen : ∀ (ms : List Mut) (σ : RState) (n : String) (acc : Option String),
+      (acc.isSome → σ.refs.find? (fun r => r.1 == n) = acc.map (fun h => (n, h))) →
+      (run σ ms).refs.find? (fun r => r.1 == n) =
+        match ms.foldl (fun acc m => match m with | .setRef n' h => if n' == n then some h else acc | _ => acc) acc with
+        | some h => some (n, h)
+        | none => σ.refs.find? (fun r => r.1 == n) := by
+    intro ms
+    induction ms with
+    | nil =>
+      intro σ n acc hacc
+      simp only [run, List.foldl_nil]
+      cases acc with
+      | none => rfl
+      | some h => simpa using hacc rfl
+    | cons m t ih =>
+      intro σ n acc hacc
+      simp only [run, List.foldl_cons]
+      cases m with
+      | setRef n' h =>
+        by_cases hn : (n' == n) = true
+        · have hn' : n' = n := by simpa using hn
+          subst hn'
+          have := ih (applyMut σ (.setRef n' h)) n' (some h) (by
+            intro _; simp [applyMut, find_setAssoc_self])
+          simp only [run] at this
+          simp only [beq_self_eq_true, if_true]
+          rw [this]
+          cases hfold : t.foldl (fun acc m => match m with | .setRef n'' h => if n'' == n' then some h else acc | _ => acc) (some h) with
+          | some _ => rfl
+          | none =>
+            -- the accumulator never goes back to none
+            exfalso
+            have mono : ∀ (u : List Mut) (a : String), (u.foldl (fun acc m => match m with | .setRef n'' h => if n'' == n' then some h else acc | _ => acc) (some a)).isSome := by
+              intro u
+              induction u with
+              | nil => intro a; rfl
+              | cons x u ihu =>
+                intro a
+                simp only [List.foldl_cons]
+                cases x <;> simp only <;> (try exact ihu a)
+                split
+                · exact ihu _
+                · exact ihu a
+            have := mono t h
+            rw [hfold] at this
+            cases this
+        · have hne : n' ≠ n := by simpa using hn
+          have hfind : (applyMut σ (.setRef n' h)).refs.find? (fun r => r.1 == n) = σ.refs.find? (fun r => r.1 == n) := by
+            simp [applyMut, find_setAssoc_other _ _ _ _ hne]
+          have := ih (applyMut σ (.setRef n' h)) n acc (by rw [hfind]; exact hacc)
+          simp only [run] at this
+          simp only [hn, Bool.false_eq_true, if_false]
+          rw [this, hfind]
+      | obj c =>
+        have := ih (applyMut σ (.obj c)) n acc (by simpa [applyMut] using hacc)
+        simp only [run] at this
+        rw [this]; simp [applyMut]
+      | aux =>
+        have := ih (applyMut σ .aux) n acc (by simpa [applyMut] using hacc)
+        simp only [run] at this
+        rw [this]; simp [applyMut]
+      | clock a b =>
+        have := ih (applyMut σ (.clock a b)) n acc (by simpa [applyMut] using hacc)
+        simp only [run] at this
+        rw [this]; simp [applyMut]
+  intro σ n
+  exact gen ms σ n none (by intro h; cases h)
+
+
+def setsName (n : String) : Mut → Bool
+  | .setRef n' _ => n' == n
+  | _ => false
+
+def lastSetAcc (ms : List Mut) (n : String) (acc : Option String) : Option String :=
+  ms.foldl (fun acc m => match m with | .setRef n' h => if n' == n then some h else acc | _ => acc) acc
+
+theorem lastSet_eq (ms : List Mut) (n : String) : lastSet ms n = lastSetAcc ms n none := rfl
+
+theorem lastSetAcc_none_of_no_set (ms : List Mut) (n : String) :
+    ∀ (acc : Option String), (∀ m ∈ ms, setsName n m = false) → lastSetAcc ms n acc = acc := by
+  induction ms with
+  | nil => intro acc _; rfl
+  | cons m t ih =>
+    intro acc h
+    unfold lastSetAcc
+    simp only [List.foldl_cons]
+    have hm := h m List.mem_cons_self
+    have ht : ∀ acc', lastSetAcc t n acc' = acc' := fun acc' => ih acc' (fun x hx => h x (List.mem_cons_of_mem _ hx))
+    cases m with
+    | setRef n' hh =>
+      simp only [setsName] at hm
+      simp only [hm, Bool.false_eq_true, if_false]
+      exact ht acc
+    | obj c => exact ht acc
+    | aux => exact ht acc
+    | clock a b => exact ht acc
+
+theorem lastSetAcc_append (a b : List Mut) (n : String) (acc : Option String) :
+    lastSetAcc (a ++ b) n acc = lastSetAcc b n (lastSetAcc a n acc) := by
+  unfold lastSetAcc; rw [List.foldl_append]
+
+/-- every ref update of the path points at something that reads fine at that moment -/
+def TargetsReadable : RState → List Mut → Prop
+  | _, [] => True
+  | σ, .setRef n h :: rest => (∃ ops, viewAt σ.store h = some ops) ∧ TargetsReadable (applyMut σ (.setRef n h)) rest
+  | σ, m :: rest => TargetsReadable (applyMut σ m) rest
+
+theorem run_store_mono (ms : List Mut) : ∀ (σ : RState), FreshObjs σ.store ms →
+    Extends σ.store (run σ ms).store ∧ σ.store.length ≤ (run σ ms).store.length := by
+  induction ms with
+  | nil => intro σ _; exact ⟨extends_refl _, Nat.le_refl _⟩
+  | cons m t ih =>
+    intro σ hf
+    cases m with
+    | obj c =>
+      obtain ⟨hfc, hft⟩ := hf
+      have := ih (applyMut σ (.obj c)) hft
+      simp only [run, List.foldl_cons] at this ⊢
+      refine ⟨extends_trans (extends_append σ.store c hfc) this.1, ?_⟩
+      have h3 : (applyMut σ (.obj c)).store.length = σ.store.length + 1 := by simp [applyMut]
+      omega
+    | aux => have := ih (applyMut σ .aux) hf; simpa [run, applyMut] using this
+    | setRef n h => have := ih (applyMut σ (.setRef n h)) hf; simpa [run, applyMut] using this
+    | clock a b => have := ih (applyMut σ (.clock a b)) hf; simpa [run, applyMut] using this
+
+theorem freshObjs_append (a b : List Mut) : ∀ (σ : RState), FreshObjs σ.store (a ++ b) →
+    FreshObjs σ.store a ∧ FreshObjs (run σ a).store b := by
+  induction a with
+  | nil => intro σ h; exact ⟨trivial, h⟩
+  | cons m t ih =>
+    intro σ h
+    cases m with
+    | obj c =>
+      obtain ⟨h1, h2⟩ := h
+      have := ih (applyMut σ (.obj c)) h2
+      exact ⟨⟨h1, this.1⟩, by simpa [run] using this.2⟩
+    | aux => have := ih (applyMut σ .aux) h; exact ⟨this.1, by simpa [run] using this.2⟩
+    | setRef n hh => have := ih (applyMut σ (.setRef n hh)) h; exact ⟨this.1, by simpa [run] using this.2⟩
+    | clock x y => have := ih (applyMut σ (.clock x y)) h; exact ⟨this.1, by simpa [run] using this.2⟩
+
+theorem run_append (σ : RState) (a b : List Mut) : run σ (a ++ b) = run (run σ a) b := by
+  simp [run, List.foldl_append]
+
+/-- the target of the last update of `n` reads fine at the end of the run -/
+theorem last_target_readable (ms : List Mut) : ∀ (σ : RState) (n h : String) (acc : Option String),
+    TargetsReadable σ ms → FreshObjs σ.store ms →
+    (∀ a, acc = some a → ∃ ops, viewAt σ.store a = some ops) →
+    lastSetAcc ms n acc = some h → ∃ ops, viewAt (run σ ms).store h = some ops := by
+  induction ms with
+  | nil =>
+    intro σ n h acc _ _ hacc hl
+    exact hacc h hl
+  | cons m t ih =>
+    intro σ n h acc htr hf hacc hl
+    unfold lastSetAcc at hl
+    simp only [List.foldl_cons] at hl
+    cases m with
+    | setRef n' hh =>
+      obtain ⟨hread, hrest⟩ := htr
+      have hrun : run σ (.setRef n' hh :: t) = run (applyMut σ (.setRef n' hh)) t := rfl
+      rw [hrun]
+      apply ih (applyMut σ (.setRef n' hh)) n h _ hrest hf _ hl
+      intro a ha
+      by_cases hn : (n' == n) = true
+      · simp only [hn, if_true] at ha
+        injection ha with ha; subst ha
+        simpa [applyMut] using hread
+      · simp only [hn, Bool.false_eq_true, if_false] at ha
+        simpa [applyMut] using hacc a ha
+    | obj c =>
+      obtain ⟨hfc, hft⟩ := hf
+      have hrun : run σ (.obj c :: t) = run (applyMut σ (.obj c)) t := rfl
+      rw [hrun]
+      apply ih (applyMut σ (.obj c)) n h acc htr hft _ hl
+      intro a ha
+      obtain ⟨ops, hops⟩ := hacc a ha
+      exact ⟨ops, viewAt_mono (extends_append σ.store c hfc) (by simp [applyMut]) a ops hops⟩
+    | aux =>
+      have hrun : run σ (.aux :: t) = run (applyMut σ .aux) t := rfl
+      rw [hrun]
+      exact ih (applyMut σ .aux) n h acc htr hf (by simpa [applyMut] using hacc) hl
+    | clock x y =>
+      have hrun : run σ (.clock x y :: t) = run (applyMut σ (.clock x y)) t := rfl
+      rw [hrun]
+      exact ih (applyMut σ (.clock x y)) n h acc htr hf (by simpa [applyMut] using hacc) hl
+
+theorem targetsReadable_take (ms : List Mut) : ∀ (σ : RState) (k : Nat), TargetsReadable σ ms → TargetsReadable σ (ms.take k) := by
+  induction ms with
+  | nil => intro σ k _; simp [TargetsReadable]
+  | cons m t ih =>
+    intro σ k h
+    cases k with
+    | zero => simp [TargetsReadable]
+    | succ k =>
+      cases m with
+      | setRef n hh => exact ⟨h.1, ih _ k h.2⟩
+      | obj c => exact ih _ k h
+      | aux => exact ih _ k h
+      | clock x y => exact ih _ k h
+
+/-- `multi_entity_crash_atomic`: a write path that updates several refs — `MergeAll` over many
+entities, a pull — each at most once, each to a head that reads fine when it is set, on a
+repository whose entities all read fine, interrupted after any number `k` of calls: under every ref
+name a reader sees exactly what it saw before the path started or exactly what it sees after the
+path finished.  Each entity is old or new, never a mixture. -/
+theorem multi_entity_crash_atomic (σ : RState) (ms : List Mut)
+    (hf : FreshObjs σ.store ms) (htr : TargetsReadable σ ms) (hr : Readable σ)
+    (hOnce : ∀ n, (ms.filter (setsName n)).length ≤ 1) (k : Nat) (n : String) :
+    refView (crash σ ms k) n = refView σ n ∨ refView (crash σ ms k) n = refView (run σ ms) n := by
+  unfold crash
+  -- split the path at the crash point
+  have hsplit : ms = ms.take k ++ ms.drop k := (List.take_append_drop k ms).symm
+  have hfP := freshObjs_take σ.store ms k hf
+  have hfS : FreshObjs (run σ (ms.take k)).store (ms.drop k) := by
+    have := freshObjs_append (ms.take k) (ms.drop k) σ (by rw [← hsplit]; exact hf)
+    exact this.2
+  have monoP := run_store_mono (ms.take k) σ hfP
+  have monoS := run_store_mono (ms.drop k) (run σ (ms.take k)) hfS
+  have hfull : run σ ms = run (run σ (ms.take k)) (ms.drop k) := by
+    conv => lhs; rw [hsplit]
+    exact run_append σ _ _
+  unfold refView
+  rw [refs_run (ms.take k) σ n]
+  cases hl : lastSet (ms.take k) n with
+  | none =>
+    left
+    simp only
+    cases hfind : σ.refs.find? (fun r => r.1 == n) with
+    | none => rfl
+    | some r =>
+      simp only [Option.map_some]
+      have hmem : r ∈ σ.refs := List.mem_of_find?_eq_some hfind
+      obtain ⟨ops, hops⟩ := hr r hmem
+      rw [hops, viewAt_mono monoP.1 monoP.2 r.2 ops hops]
+  | some h =>
+    right
+    simp only [Option.map_some]
+    -- the target reads fine at the crash point and at the end
+    rw [lastSet_eq] at hl
+    obtain ⟨ops, hops⟩ := last_target_readable (ms.take k) σ n h none (targetsReadable_take ms σ k htr) hfP
+      (by intro a ha; cases ha) hl
+    -- nobody sets n again afterwards
+    have hnone : ∀ m ∈ ms.drop k, setsName n m = false := by
+      intro m hm
+      cases hs : setsName n m with
+      | false => rfl
+      | true =>
+        exfalso
+        -- there is one in the prefix too
+        have hpre : ∃ m' ∈ ms.take k, setsName n m' = true := by
+          apply Classical.byContradiction
+          intro hno
+          have : ∀ m' ∈ ms.take k, setsName n m' = false := by
+            intro m' hm'
+            cases hs' : setsName n m' with
+            | false => rfl
+            | true => exact absurd ⟨m', hm', hs'⟩ hno
+          rw [lastSetAcc_none_of_no_set (ms.take k) n none this] at hl
+          cases hl
+        obtain ⟨m', hm', hs'⟩ := hpre
+        have hcount := hOnce n
+        rw [hsplit, List.filter_append, List.length_append] at hcount
+        have h1 : 1 ≤ ((ms.take k).filter (setsName n)).length :=
+          List.length_pos_of_mem (List.mem_filter.mpr ⟨hm', hs'⟩)
+        have h2 : 1 ≤ ((ms.drop k).filter (setsName n)).length :=
+          List.length_pos_of_mem (List.mem_filter.mpr ⟨hm, hs⟩)
+        omega
+    have hlast : lastSet ms n = some h := by
+      rw [lastSet_eq]
+      conv => lhs; rw [hsplit]
+      rw [lastSetAcc_append, hl, lastSetAcc_none_of_no_set (ms.drop k) n (some h) hnone]
+    rw [refs_run ms σ n, hlast]
+    simp only [Option.map_some]
+    rw [hops, hfull, viewAt_mono monoS.1 monoS.2 h ops hops]
+
+
+/-- non-vacuity: a `MergeAll` that fast-forwards one bug and creates another: two ref updates, the
+hypotheses hold, and at the crash point between them one bug is new and the other still old -/
+example :
+    let pk := fun (id : String) (ops : List String) (c e : Nat) =>
+      (Except.ok { id := id, author := "a", ops := ops.map (fun o => ({ id := o } : OpTok)), create := c, edit := e } : Except Err Pack)
+    let σ : RState := { store := [{ hash := "R1", parents := [], pack := pk "p1" ["b1"] 1 1 },
+                                  { hash := "A2", parents := ["R1"], pack := pk "p2" ["x"] 0 2 },
+                                  { hash := "R2", parents := [], pack := pk "p3" ["b2"] 2 3 }],
+                        refs := [("refs/bugs/b1", "R1")], clocks := [] }
+    let ms : List Mut := [.clock "bugs-edit" 3, .setRef "refs/bugs/b1" "A2", .aux, .setRef "refs/bugs/b2" "R2"]
+    (ms.filter (setsName "refs/bugs/b1")).length = 1 ∧
+    refView (crash σ ms 2) "refs/bugs/b1" = refView (run σ ms) "refs/bugs/b1" ∧
+    refView (crash σ ms 2) "refs/bugs/b2" = refView σ "refs/bugs/b2" ∧
+    refView (crash σ ms 2) "refs/bugs/b2" ≠ refView (run σ ms) "refs/bugs/b2" := by
+  decide
+
+
 /-! ## non-vacuity -/
 
 example : disciplined [.clock "bugs-edit" 4, .aux, .aux, .obj default, .setRef "refs/bugs/x" "h"] = true ∧
